@@ -433,20 +433,34 @@ def _slice_from_grid(run, P):
     f = P.func(f"{DA}:UxDataArray._slice_from_grid")
     want = {"_face_centered": "face", "_edge_centered": "edge", "_node_centered": "node"}
     n = 0
+    DIM_KIND = {v: k for k, v in KIND_DIM.items()}
+
+    def kind_of_test(test):
+        """the element kind a branch condition selects:  self._<kind>_centered()   or   "<dim>" in self.dims  (what the predicate is defined as)"""
+        for x in ast.walk(test):
+            if isinstance(x, ast.Call) and isinstance(x.func, ast.Attribute) and x.func.attr in want:
+                return want[x.func.attr]
+            if isinstance(x, ast.Compare) and len(x.ops) == 1 and isinstance(x.ops[0], ast.In) and str_const(x.left) in DIM_KIND and norm(x.comparators[0]) == "self.dims":
+                return DIM_KIND[str_const(x.left)]
+        return None
     st = next((s for s in f.node.body if isinstance(s, ast.If)), None)
     while st is not None:
-        pred = [x.func.attr for x in ast.walk(st.test) if isinstance(x, ast.Call) and isinstance(x.func, ast.Attribute) and x.func.attr in want]
-        if pred:
-            kind = want[pred[0]]
+        kind = kind_of_test(st.test)
+        if kind:
             n += 1
             c = f"{f.key}:slice[{kind}]"
             ok = False
             for x in ast.walk(ast.Module(body=st.body, type_ignores=[])):
                 if isinstance(x, ast.Call) and isinstance(x.func, ast.Attribute) and x.func.attr == "isel":
-                    for k in x.keywords:
-                        if k.arg == KIND_DIM[kind]:
-                            keys = [y.value for y in ast.walk(k.value) if isinstance(y, ast.Constant) and isinstance(y.value, str)]
-                            grids = [norm(y.value) for y in ast.walk(k.value) if isinstance(y, ast.Attribute) and y.attr == "_ds"]
+                    # isel(n_face=<indexer>)   |   isel({"n_face": <indexer>})   |   isel(indexers={...})
+                    pairs = [(k.arg, k.value) for k in x.keywords if k.arg not in (None, "indexers")]
+                    for d_ in [a for a in x.args[:1]] + [k.value for k in x.keywords if k.arg == "indexers"]:
+                        if isinstance(d_, ast.Dict):
+                            pairs += [(str_const(kk), vv) for kk, vv in zip(d_.keys, d_.values) if kk is not None]
+                    for arg, val in pairs:
+                        if arg == KIND_DIM[kind]:
+                            keys = [y.value for y in ast.walk(val) if isinstance(y, ast.Constant) and isinstance(y.value, str)]
+                            grids = [norm(y.value) for y in ast.walk(val) if isinstance(y, ast.Attribute) and y.attr == "_ds"]
                             if keys == [f"subgrid_{kind}_indices"] and grids == [f.params()[1]]:
                                 ok = True
             if ok:
